@@ -2888,7 +2888,9 @@ func (r *Report) BandtssRest(key, fnKey string) {
 	}
 	// the multiplier is len(slice) of the slice the pay loop ranges over
 	recv := Render(argValue(pay[0].Common(), 2))
-	if !st.Has("len", "call:builtin.append") || !recv.Has("call:builtin.append") {
+	_ = st
+	multiplier := Render(mul.Call.Args[1])
+	if !multiplier.Has("len", "call:builtin.append") || multiplier.Has("call:TSSKeeper.MustGetMembers", "!call:builtin.append") || !recv.Has("call:builtin.append") {
 		r.Bad(k, d, w.posOr(fund[0].Pos(), fn), "multiplier is not the length of the paid-members slice")
 		return
 	}
